@@ -214,6 +214,7 @@ def run(ctx):
     # ---------------- R18.7
     single_pass_unescape(ctx)
     table_entry_arithmetic(ctx)
+    case_mapping_skip(ctx)
 
 
 def table_lookups(ctx):
@@ -495,3 +496,89 @@ def table_entry_arithmetic(ctx):
             if not ok:
                 r8.fail('%s/table-entry-%s-char-count' % (fn.split('::')[-1], op.lower()[:3]), where, 'an entry of the char-start table (a byte offset) is %s a character index / count: the table of the result no longer points at the starts of its characters for text with multi-byte characters before the slice (substring(1, ..) of "éa" yields a table starting at 1 instead of 0)' % ('reduced by' if op.startswith('Sub') else 'added to'))
     r8.need(2)
+
+
+def case_mapping_skip(ctx):
+    """R18.9: to_lowercase / to_uppercase answer None ("nothing to map, keep the original") on a fast path.  That answer is right
+    only if every character is its own image.  `all chars are lowercase` implies it; `no char is uppercase` does not (titlecase
+    letters such as U+01C5 are neither and have both mappings).  Decided on the MIR: the None answer is reached on the edge of a
+    quantifier over the characters; that quantifier, normalised to a universal statement (all(P) true, or any(P) false = all(not P)),
+    must state the predicate of the *target* case, un-negated.  A function with no None answer, or one that compares the mapped
+    text with the original, is fine."""
+    from .lib import mirq
+    from .lib.facts import strip_generics, callee_name, op_place
+    mir = ctx.mir
+    r9 = ctx.rule('R18.9', 'the keep-the-original fast path of a case mapping is taken only when every character already has the target case')
+    for fname, same, opp in (('to_lowercase', 'is_lowercase', 'is_uppercase'), ('to_uppercase', 'is_uppercase', 'is_lowercase')):
+        bs = [b for b in mir.bodies if b.nid == 'util::fenced_string::FencedString::' + fname]
+        if not bs:
+            r9.fail('anchor/' + fname, FS, '%s not found' % fname)
+            continue
+        b = bs[0]
+        none_blocks = [i for i, j, s in b.stmts() if s['k'] == 'assign' and not s['place']['p'] and s['place']['l'] == 0 and s['rv']['k'] == 'agg' and s['rv'].get('v') == 'None']
+        if not none_blocks:
+            r9.inst({'fn': fname, 'fast_path': 'none: always maps'}, ok=True, kind=fname)
+            continue
+        verdicts = []
+        for bb, t in b.calls():
+            nm = strip_generics(t.get('decl') or t.get('callee') or '')
+            if nm not in ('std::iter::Iterator::all', 'std::iter::Iterator::any') or len(t['args']) < 2:
+                continue
+            kind = nm.split('::')[-1]
+            # the predicate: a function item or a closure around one
+            preds, pneg = set(), False
+            a = t['args'][1]
+            if 'const' in a:
+                preds |= set(re.findall(r'is_(?:lowercase|uppercase|alphabetic|ascii_\w+)', a['const'].get('s') or ''))
+            else:
+                p = op_place(a)
+                k2, v2 = mirq.chase(b, p['l']) if p is not None and not p['p'] else (None, None)
+                cb = mir.by_id.get(v2[2]['rv'].get('def')) if k2 == 'rv' and v2[2]['rv']['k'] == 'agg' and v2[2]['rv'].get('ak') == 'closure' else None
+                if cb is not None:
+                    for cbb, ct in cb.calls():
+                        preds |= set(re.findall(r'is_(?:lowercase|uppercase)', strip_generics(callee_name(ct) or '')))
+                    pneg = sum(1 for _, _, s2 in cb.stmts() if s2['k'] == 'assign' and s2['rv']['k'] == 'un' and s2['rv']['op'] == 'Not') % 2 == 1
+            # which truth value of the quantifier leads to the None answer?
+            cur, negs, pol = t['dest']['l'], 0, None
+            for _ in range(6):
+                sws = [i2 for i2 in range(len(b.blocks)) if b.term(i2)['k'] == 'switch' and op_place(b.term(i2)['discr']) is not None and op_place(b.term(i2)['discr'])['l'] == cur]
+                if sws:
+                    t2 = b.term(sws[0])
+                    false_t = [x for v, x in t2['targets'] if str(v) == '0']
+                    true_t = t2['otherwise']
+                    r_true = b.reachable(true_t) | {true_t}
+                    r_false = (b.reachable(false_t[0]) | {false_t[0]}) if false_t else set()
+                    on_true = any(n_ in r_true for n_ in none_blocks) and not any(n_ in r_false for n_ in none_blocks)
+                    on_false = any(n_ in r_false for n_ in none_blocks) and not any(n_ in r_true for n_ in none_blocks)
+                    if on_true != on_false:
+                        pol = on_true if negs % 2 == 0 else not on_true
+                    break
+                nxt = None
+                for i2, j2, s2 in b.stmts():
+                    if s2['k'] == 'assign' and not s2['place']['p']:
+                        if s2['rv']['k'] == 'un' and s2['rv']['op'] == 'Not' and op_place(s2['rv']['a']) is not None and op_place(s2['rv']['a'])['l'] == cur:
+                            nxt, negs = s2['place']['l'], negs + 1
+                        elif s2['rv']['k'] == 'use' and op_place(s2['rv']['op']) is not None and op_place(s2['rv']['op'])['l'] == cur:
+                            nxt = s2['place']['l']
+                if nxt is None:
+                    break
+                cur = nxt
+            if pol is None or len(preds) != 1:
+                verdicts.append((bb, 'unrecognised', '%s over %s' % (kind, sorted(preds) or 'an unrecognised predicate')))
+                continue
+            pred = next(iter(preds))
+            universal = (kind == 'all' and pol) or (kind == 'any' and not pol)
+            negated = pneg if kind == 'all' else not pneg
+            if not universal:
+                verdicts.append((bb, 'bad', 'None is answered when SOME character satisfies %s%s' % ('not ' if pneg else '', pred)))
+            elif pred == same and not negated:
+                verdicts.append((bb, 'good', 'every character %s' % pred))
+            elif pred == opp:
+                verdicts.append((bb, 'bad', 'every character %s%s' % ('not ' if negated else '', pred)))
+            else:
+                verdicts.append((bb, 'unrecognised', 'every character %s%s' % ('not ' if negated else '', pred)))
+        bad = [v for v in verdicts if v[1] == 'bad']
+        r9.inst({'fn': fname, 'fast_path_condition': [v[2] for v in verdicts] or ['no quantifier over the characters (e.g. compares the mapped text)']}, ok=not bad, kind=fname)
+        for bb, _, what in bad:
+            r9.fail('%s/skip-condition' % fname, mirq.site(b, bb), '%s keeps the original text when: %s.  That does not imply that every character is its own image: titlecase letters (U+01C5, U+1F88, ...) are neither uppercase nor lowercase and are mapped by both, so "\\u{1C5}".%s() stays unmapped' % (fname, what, 'lower' if fname == 'to_lowercase' else 'upper'))
+    r9.need(2)
